@@ -86,6 +86,11 @@ def case_hash(case):
     return hashlib.sha1(json.dumps(jsonable(case), sort_keys=True).encode()).hexdigest()[:16]
 
 
+def impure(prog, ri):
+    """a query (or a derivation: slice, conversion, writer) that changed the graph it was asked about"""
+    return [dict(index=i, op=list(op), what=r) for i, (op, r) in enumerate(zip(prog, ri)) if isinstance(r, str) and r.startswith('IMPURE-QUERY')]
+
+
 def eval_chunk(args):
     """worker: run impl + model + oracle on a chunk of cases"""
     mod_name, cases = args
@@ -99,7 +104,7 @@ def eval_chunk(args):
     res = []
     for c, p, rm in zip(cases, progs, rms):
         ri = run_impl(p, family=c.get('family', 'int'), functional=c.get('functional', False))
-        fails = P.oracle(c, p, ri)
+        fails = P.oracle(c, p, ri) + impure(p, ri)
         for f in fails:
             i = f.get('index')
             f['impl_eq_model'] = (i is not None and public(ri[i]) == rm[i])
@@ -113,7 +118,7 @@ def eval_one(P, case):
     p = P.program(case)
     rm = run_model([p])[0]
     ri = run_impl(p, family=case.get('family', 'int'), functional=case.get('functional', False))
-    fails = P.oracle(case, p, ri)
+    fails = P.oracle(case, p, ri) + impure(p, ri)
     for f in fails:
         i = f.get('index')
         f['impl_eq_model'] = (i is not None and public(ri[i]) == rm[i])
